@@ -181,6 +181,12 @@ def one_shape(col, n, edges, rng, variants, sample=False):
         else:
             conf = {"nodes": {ids[i]: {"priority": p2[i]} for i in range(n)}}
             d.config_from_dict(conf)
+            if rng.random() < 0.4:
+                # priority PROFILES kept as dict objects by the caller: the new one, back to the declared one, and the very same
+                # dict object of the new one again
+                d.config_from_dict({"nodes": {ids[i]: {"priority": prios[i]} for i in range(n)}})
+                d.config_from_dict(conf)
+                col.counters["cp_profiles_switched_A_B_A_with_the_same_dict_object"] += 1
         sp2 = mk_spec(n, edges, p2)
         cp2 = S.cp_spec(sp2)
         rp = dict(rp, reconfigured_to=p2)
